@@ -262,6 +262,8 @@ class AxolotlManager(object):
         except UntrustedIdentityException as ex:
             if autotrust:
                 self.trust_identity(ex.getName(), ex.getIdentityKey())
+                # the bundle was refused before anything was built: build the session now that its identity is trusted
+                session_builder.processPreKeyBundle(prekeybundle)
             else:
                 raise exceptions.UntrustedIdentityException(ex.getName(), ex.getIdentityKey())
 
